@@ -757,7 +757,8 @@ namespace {
     }
 }
 
-extern "C" const char* __asan_default_options() { return "quarantine_size_mb=8"; }
+// exitcode: the driver only recognises a dead worker as a crash if its exit status is neither 0 nor 1 (ASan's default is 1)
+extern "C" const char* __asan_default_options() { return "exitcode=66:quarantine_size_mb=8"; }
 
 int main( int argc, char** argv )
 {
